@@ -34,6 +34,12 @@ def split_fact(e, truth, out):
     elif isinstance(e, ast.BoolOp) and isinstance(e.op, ast.Or) and not truth:
         for v in e.values:
             split_fact(v, False, out)
+    elif isinstance(e, ast.NamedExpr) and isinstance(e.target, ast.Name):
+        # (x := value) has the truth value of x afterwards
+        out.append((e, truth))
+        nm = ast.Name(id=e.target.id, ctx=ast.Load())
+        ast.copy_location(nm, e)
+        out.append((nm, truth))
     else:
         out.append((e, truth))
 
